@@ -134,14 +134,14 @@ func init() {
 							switch {
 							case id.Name == "Native" && isPtrTo(vt.Type, csT):
 								construct := ord.next("error literal Native")
-								if ce, ok := ast.Unparen(kv.Value).(*ast.CallExpr); ok && originOf(Callee(info, ce)) == cp {
+								if c.valueIsResultOf(u, kv.Value, cp, 0) {
 									obs = append(obs, mkOb(c, "TRACE.copied", u, construct, kv, Proved, "Stack.Copy()", false))
 								} else {
 									obs = append(obs, mkOb(c, "TRACE.copied", u, construct, kv, Violated, "an error is given a call stack that is not a Copy() of the runtime's stack: later pushes and pops rewrite the trace the error reports", true))
 								}
 							case id.Name == "source" && isPtrTo(vt.Type, locT):
 								construct := ord.next("error literal source")
-								if ce, ok := ast.Unparen(kv.Value).(*ast.CallExpr); ok && lcp != nil && originOf(Callee(info, ce)) == lcp {
+								if lcp != nil && c.valueIsResultOf(u, kv.Value, lcp, 0) {
 									obs = append(obs, mkOb(c, "TRACE.copied", u, construct, kv, Proved, "loc.Copy()", false))
 								} else {
 									obs = append(obs, mkOb(c, "TRACE.copied", u, construct, kv, Violated, "an error aliases the evaluator's current-location object instead of copying it: the reported position moves when evaluation continues", true))
@@ -882,4 +882,63 @@ func init() {
 			}
 			return obs
 		}})
+}
+
+// valueIsResultOf: e is a call of m (a copy constructor), nil, a local defined once as such,
+// or a parameter of an unexported function every call site of which passes such a value
+// (the literal moved into a constructor helper; what the helper stores is what its callers
+// hand it).
+func (c *Ctx) valueIsResultOf(u FuncUnit, e ast.Expr, m *types.Func, depth int) bool {
+	info := u.Pkg.TypesInfo
+	e = ast.Unparen(e)
+	if tv, ok := info.Types[e]; ok && tv.IsNil() {
+		return true
+	}
+	if ce, ok := e.(*ast.CallExpr); ok {
+		return originOf(Callee(info, ce)) == m
+	}
+	if d := soleDef(info, u.Decl.Body, e); d != nil {
+		return c.valueIsResultOf(u, d, m, depth)
+	}
+	o := identObj(info, e)
+	if o == nil || depth > 2 || u.Obj.Exported() {
+		return false
+	}
+	idx := -1
+	for i, p := range paramObjs(u) {
+		if p == o {
+			idx = i
+		}
+	}
+	if idx < 0 {
+		return false
+	}
+	// the parameter is not reassigned
+	reassigned := false
+	ast.Inspect(u.Decl.Body, func(n ast.Node) bool {
+		if as, ok := n.(*ast.AssignStmt); ok {
+			for _, l := range as.Lhs {
+				if identObj(info, l) == o {
+					reassigned = true
+				}
+			}
+		}
+		return true
+	})
+	if reassigned {
+		return false
+	}
+	sites, refs := c.CallsTo(nil, u.Obj)
+	if len(sites) == 0 || len(refs) > 0 {
+		return false
+	}
+	for _, s := range sites {
+		if idx >= len(s.Call.Args) || s.Call.Ellipsis.IsValid() {
+			return false
+		}
+		if !c.valueIsResultOf(s.Unit, s.Call.Args[idx], m, depth+1) {
+			return false
+		}
+	}
+	return true
 }
